@@ -1,6 +1,7 @@
 package core
 
 import (
+	"bufio"
 	"errors"
 	"fmt"
 	"io"
@@ -377,4 +378,27 @@ func (c *Ctx) WithQuotaFile(quota int, fn func(f *os.File)) (accepted []byte, er
 	}()
 	accepted, err = os.ReadFile(f.Name())
 	return accepted, err
+}
+
+// ---- what the consumer's reader looks like ----------------------------------------
+
+type onlyReader struct{ r io.Reader }
+
+func (o onlyReader) Read(p []byte) (int, error) { return o.r.Read(p) }
+
+// WrapSource draws the Go type behind which a consumer sees the simulated
+// stream: the SimReader itself (Read and Seek), a value offering nothing but
+// Read, or a bufio.Reader of a drawn size (ReadByte, WriteTo, Peek: the
+// interfaces for which libraries keep fast paths). buffered reports that the
+// wrapper may take more from the stream than its consumer asked for.
+func (c *Ctx) WrapSource(label string, sr *SimReader) (r io.Reader, buffered bool) {
+	switch c.Pick(label+".sourceType", 4) {
+	case 0:
+		return onlyReader{sr}, false
+	case 1:
+		c.Probe("source is a bufio.Reader")
+		return bufio.NewReaderSize(sr, c.PickInt(label+".bufio", 16, 17, 64, 4096)), true
+	default:
+		return sr, false
+	}
 }
